@@ -172,7 +172,8 @@ ADDED = {
            'the lifted templates of every operand form; (D8) aaa/aas/daa/das: the lifted assignments evaluated on every al x AF x CF x 5 values of ah equal the SDM pseudo-code. '
            'D9: push/pop through esp use the value of esp IA-32 prescribes (addresses of the lifted templates evaluated). D10-D13: the lifted assignments of the shifts and rotates are evaluated '
            '(masked count 0 changes nothing; result/CF/OF/ZF/SF/PF on boundary operands x counts equal a reference validated against the host CPU), xchg/xadd on two parts of one '
-           'register, and the cell and bit the bt family addresses for signed register offsets and immediate offsets.',
+           'register, and the cell and bit the bt family addresses for signed register offsets and immediate offsets. '
+           'D14: call/ret/retf/leave/enter under both operand sizes address the stack through the 32-bit esp and move it by the slot sizes IA-32 prescribes (lifted templates evaluated with a carry into the high half of esp).',
     'C05': ' Also (D4/D5): rewrites are selected by their action; constant folding demands equal widths of associative operands only; every tab_size_int[K] lookup of the simplifier is '
            'dominated by a membership test, by an isinstance(.., ExprInt) on the value or an operand of it, or ranges over the table keys (no KeyError on 4/24/31-bit slices). '
            'D7: the parity fold is the parity of the low byte at every width (both parity functions evaluated).',
